@@ -32,7 +32,8 @@ CONSTANTS NB,        \* bars are 1..NB (bar b is created by the b-th Add in prog
           Pop,       \* PopCompletedMode
           Prog,      \* Prog[c] = sequence of calls of client c
           MaxTicks,  \* refresh periods the scheduler may let pass (bounds the graph)
-          Fault,     \* [b, at]: the at-th Fill of bar b returns an error (at = 0: never)
+          Fault,     \* [kind, b, at]: the at-th Fill ("fill") or extender call ("ext") of bar b, or the at-th Write on
+                     \* the output ("out"), returns an error (at = 0: never)
           Refresh    \* "auto" | "manual" | "none"
 
 Bars    == 1..NB
@@ -82,6 +83,7 @@ Init0 ==
    iterDrop |-> FALSE,         \* closed by the container on a render error
    lazyDirty |-> FALSE,        \* a lazy priority change has been applied since the last ordered iteration began
    err   |-> FALSE, drain |-> "none", debug |-> 0,
+   nwrites |-> 0, cuuPend |-> FALSE,   \* Writes on the output so far (saturating); a cursor-up sequence waits in the buffer
    cw    |-> 0,                \* text lines accepted and not yet written
    out   |-> [rows |-> <<>>, prios |-> <<>>, exempt |-> FALSE, text |-> 0, pop |-> 0],   \* last frame written (observation)
    written |-> 0,              \* text lines written so far
@@ -411,9 +413,15 @@ MicroCt(st) ==
          ELSE IF ~st.bar[b].rm THEN {PushThen(st1, b, FALSE, "flush")}
          ELSE {FlushNext(st1)}
     [] T.pc = "flush_do" ->
-         LET st1 == [st EXCEPT !.out = [rows |-> T.rows, prios |-> T.prios, exempt |-> T.exempt, text |-> st.cw, pop |-> T.popc],
-                               !.written = @ + st.cw, !.cw = 0] IN
-         IF T.final THEN {[st1 EXCEPT !.ct.pc = "hm_gate", !.ct.cmd = "state"]}
+         \* cw.Flush: one Write on the output unless there is nothing to write (no rows, no text, no pending cursor-up)
+         LET writes == Len(T.rows) > 0 \/ st.cw > 0 \/ st.cuuPend
+             failsOut == writes /\ Fault.at # 0 /\ Fault.kind = "out" /\ st.nwrites + 1 = Fault.at
+             st1 == [st EXCEPT !.out = [rows |-> T.rows, prios |-> T.prios, exempt |-> T.exempt, text |-> st.cw, pop |-> T.popc],
+                               !.written = @ + st.cw, !.cw = 0, !.nwrites = IF writes /\ @ < 3 THEN @ + 1 ELSE @,
+                               !.cuuPend = Len(T.rows) - T.popc > 0] IN
+         IF failsOut   \* the error comes back from render(): serve() starts the drain goroutine and cancels (no drop: the cycle is over)
+         THEN {[st EXCEPT !.nwrites = @ + 1, !.err = TRUE, !.drain = "run", !.ct.pc = "pcancel_gate"]}
+         ELSE IF T.final THEN {[st1 EXCEPT !.ct.pc = "hm_gate", !.ct.cmd = "state"]}
          ELSE {[st1 EXCEPT !.ct.pc = "idle"]}
     [] T.pc = "drop_do" ->
          \* close(s.iterDrop); b.cancel(); return err  -- then serve(): go drain(); gate; p.cancel()
@@ -431,13 +439,16 @@ MicroCt(st) ==
 FinishRender(st, b) ==
   LET B == st.bar[b]
       term == Terminal(B)
-      fails == Fault.at # 0 /\ Fault.b = b /\ B.fills + 1 = Fault.at
+      mine  == Fault.at # 0 /\ Fault.kind \in {"fill", "ext"} /\ Fault.b = b
+      fails == mine /\ Fault.kind = "fill" /\ B.fills + 1 = Fault.at
+      \* an extender error comes after the row was drawn: the frame carries the error and the shutdown bookkeeping
+      failsExt == mine /\ Fault.kind = "ext" /\ B.fills + 1 = Fault.at
       st1 == IF fails
              THEN [st EXCEPT !.bar[b].frame = [has |-> TRUE, sd |-> 0, rm |-> FALSE, nopop |-> FALSE, err |-> TRUE],
                              !.bar[b].fills = @ + 1, !.bar[b].rd = "none"]
-             ELSE [st EXCEPT !.bar[b].frame = [has |-> TRUE, sd |-> IF term THEN B.shutdown ELSE 0, rm |-> B.rm, nopop |-> B.nopop, err |-> FALSE],
+             ELSE [st EXCEPT !.bar[b].frame = [has |-> TRUE, sd |-> IF term THEN B.shutdown ELSE 0, rm |-> B.rm, nopop |-> B.nopop, err |-> failsExt],
                              !.bar[b].shutdown = IF term THEN (IF @ >= 3 THEN 3 ELSE @ + 1) ELSE @,
-                             !.bar[b].fills = IF Fault.at # 0 /\ Fault.b = b /\ @ < Fault.at THEN @ + 1 ELSE @,
+                             !.bar[b].fills = IF mine /\ @ < Fault.at THEN @ + 1 ELSE @,
                              !.bar[b].rd = "none"] IN
   IF B.host = "bar" THEN [st1 EXCEPT !.bar[b].host = "none", !.bar[b].pc = "idle"]
   ELSE [st1 EXCEPT !.bar[b].host = "none", !.bar[b].rg = "none"]
